@@ -16,7 +16,9 @@ func (tb *tokenBucket) adjustOnFailure(statusCode int) {
 	// For rate limiting errors, impose a penalty period.
 	case statusCode == 429 || statusCode == 403 || statusCode == 408 || statusCode == 425:
 		tb.failureCount++
-		penalty := min(time.Duration(float64(basePenaltyDuration)*math.Pow(2, float64(tb.failureCount-1))), maxPenaltyDuration)
+		// Cap the penalty before converting to a Duration: after a long failure streak the
+		// exponential exceeds the int64 range and the conversion would yield a negative duration.
+		penalty := time.Duration(math.Min(float64(basePenaltyDuration)*math.Pow(2, float64(tb.failureCount-1)), float64(maxPenaltyDuration)))
 		tb.penaltyUntil = now.Add(penalty)
 		// Optionally, clear tokens to prevent immediate further requests.
 		tb.tokens = 0
